@@ -23,6 +23,12 @@
 // variants than the product can afford: they form the wide family (wide.go) — 36 more history
 // letters and 12 more probes, used in histories of ONE request only.
 //
+// Route parameter slots of the pooled context are only ever overwritten by a successful match, so every
+// shortcut of the matcher may keep a previous request's value: the route-shape family (shape.go) — 23
+// small applications (the catch-all in every spelling, root / prefix wildcards, optional parameters,
+// parameterised middlewares), each reached with empty / minimal parameter values after a request that
+// filled the same slots.
+//
 // Concurrent mixes (concurrent.go): two requests in flight on one application, from fresh pools and
 // after one served request of every kind of exit from the request handler.
 //
@@ -746,6 +752,12 @@ func main() {
 			wideApp = true
 			fmt.Printf("--- history letter %s\n%q\n=> %q\n", p.Name, p.Raw, runRaw(0, p.Raw))
 		}
+		for si := range shapes {
+			for _, p := range shapes[si].paths() {
+				r := runShape(0, si, []string{p}, []bool{true})
+				fmt.Printf("--- shape %s [%s] GET %s\n=> %q\n", shapes[si].Name, shapes[si].routes(), p, r.Resp[0])
+			}
+		}
 		cleanupFiles()
 		return
 	}
@@ -817,6 +829,9 @@ func main() {
 	if c["dv_traces"] > 0 && c["dv_probe_served_by_reused_ctx"]*2 < c["dv_traces"] {
 		core.Fatal("vacuous: derived-value family: only %d of %d probes were served by a reused pooled context", c["dv_probe_served_by_reused_ctx"], c["dv_traces"])
 	}
+	if c["shape_traces"] > 0 && c["shape_probe_served_by_reused_ctx"]*2 < c["shape_traces"] {
+		core.Fatal("vacuous: route-shape family: only %d of %d probes were served by a reused pooled context", c["shape_probe_served_by_reused_ctx"], c["shape_traces"])
+	}
 	dvVisible, dvBlind := dvVisibility()
 	if dvVisible < 100 && len(dvMembers) > 0 {
 		core.Fatal("vacuous: only %d single-input changes of the derived-value family are visible to a derived observation", dvVisible)
@@ -839,9 +854,10 @@ func main() {
 				"workers":                  nw,
 				"application_state_family": appFamilyNotes(),
 				"derived_value_family":     dvBounds(),
+				"route_shape_family":       shapeBounds(depth),
 				"derived_value_inputs_changing_only_the_raw_header_dump": dvBlind,
 			},
-			"rule": "states = distinct (config, history, connection pattern) triples; transitions = requests served through ServeConn in compared traces; a trace = history + probe served by a fresh application (pool flush: see assumptions), whose probe observation vector and raw response bytes are compared key by key with the same probe sent first to a fresh application after a pool flush; the traces of the wide family (counter wide_traces: histories of one request that contain a wide letter or end in a wide probe, see bounds.wide_family; their applications carry the family's routes and are compared with fresh applications that carry them too) are included in states, traces and transitions; the traces of the derived-value family (counters dv_*: one history member + one probe member differing in exactly one request input, see bounds.derived_value_family) are included in traces and transitions but not in states",
+			"rule": "states = distinct (config, history, connection pattern) triples; transitions = requests served through ServeConn in compared traces; a trace = history + probe served by a fresh application (pool flush: see assumptions), whose probe observation vector and raw response bytes are compared key by key with the same probe sent first to a fresh application after a pool flush; the traces of the wide family (counter wide_traces: histories of one request that contain a wide letter or end in a wide probe, see bounds.wide_family; their applications carry the family's routes and are compared with fresh applications that carry them too) are included in states, traces and transitions; the traces of the derived-value family (counters dv_*: one history member + one probe member differing in exactly one request input, see bounds.derived_value_family) are included in traces and transitions but not in states; so are the traces of the route-shape family (counters shape_*: see bounds.route_shape_family; every shape is an application of its own, compared with a fresh application of the same shape)",
 		},
 		Assumptions: []string{
 			fmt.Sprintf("pool flush (runtime.GC() x2) before every trace with <= %d preceding requests (exception: after 2 or more preceding requests, traces whose probe or history contains a letter of the application-state family follow the rule for longer histories); for longer histories before the first of the %d probe traces of a (config, history, connection pattern) — the others run on a fresh application but with the process-global pools as the previous trace left them, and any difference found is re-run after a flush", fullPatternDepth, coreProbes),
@@ -926,14 +942,22 @@ func worker(r *core.Run, depth int) {
 		core.Fatal("fresh-app observation is not reproducible: %s", d)
 	}
 	// derived-value family first: it is small, and a run stopped by the wall-clock cap must not lose it
-	if !workerDerived(r, ck) {
+	onlyShapes := os.Getenv("C05_ONLY_SHAPES") != "" // development aid
+	if !onlyShapes && !workerDerived(r, ck) {
 		r.Cap("wall-clock budget reached while running the derived-value family")
 	}
 	if os.Getenv("C05_TIMING") != "" {
 		fmt.Fprintf(os.Stderr, "worker %d: derived family done at %.1fs\n", r.Worker, time.Since(r.Start).Seconds())
 	}
 	ck.dropDerived()
-	if os.Getenv("C05_ONLY_DERIVED") != "" { // development aid
+	// route-shape family (shape.go): small too
+	if os.Getenv("C05_ONLY_DERIVED") == "" && !workerShapes(r, ck, depth) {
+		r.Cap("wall-clock budget reached while running the route-shape family")
+	}
+	if os.Getenv("C05_TIMING") != "" {
+		fmt.Fprintf(os.Stderr, "worker %d: route-shape family done at %.1fs\n", r.Worker, time.Since(r.Start).Seconds())
+	}
+	if os.Getenv("C05_ONLY_DERIVED") != "" || onlyShapes { // development aid
 		depth = 0
 	}
 	hists := enumHistories(depth)
